@@ -450,6 +450,12 @@ func (self *Fork) updateId(id ForkId) {
 				chunk := NewChunk(self, i, chunkDef, width)
 				self.chunks = append(self.chunks, chunk)
 			}
+		} else if oldPath != "" {
+			// The fork was renamed (dynamic expansion) to a directory which has
+			// no stage defs: the chunks built for the old directory, and the
+			// stage defs read from it, belong to another fork now.
+			self.chunks = nil
+			self.stageDefs = &StageDefs{ChunkDefs: []*ChunkDef{new(ChunkDef)}}
 		}
 	}
 }
